@@ -1800,7 +1800,68 @@ class C17(Prop):
                 res.samples.append({"case": cases[0][:200], "impl": tr["native"][0][:200], "model": tr["baseline"][0][:200]})
 
 
-REGISTRY = {"C17": C17(), "C19": C19(), "C04": C04(), "C11": C11(), "C13": C13(), "C06": C06(), "C15": C15(), "C16": C16(), "C05": C05(), "C18": C18(), "C08": C08(), "C07": C07(), "C03": C03(), "C02": C02(), "C20": C20(), "C09": C09(), "C10": C10(), "C14": C14(), "C12": C12()}
+# ------------------------------------------------------------------------------------------
+# C01
+
+class C01(Prop):
+    rule = ("every safe entry point (DOM from_slice/from_str with Display/Debug/clone/serialization of the result and formatting of errors; serde_json::Value, "
+            "typed structs with borrowed / Value / LazyValue / OwnedLazyValue fields, IgnoredAny through the sonic-rs Deserializer; LazyValue and "
+            "OwnedLazyValue with their accessors; get with key / index / mixed / empty paths; get_many; get_by_schema; array and object iterators; "
+            "stream deserializers; lossy and raw-number modes; &[u8], &str, String, Bytes and FastStr carriers) on fixed truncated / malformed texts, "
+            "tokens of every length 0..70 (0..200 thorough) and around 128/256/1024/4096/8192 of seven fill bytes, generated documents and single / "
+            "double mutations / truncations of them; each input three times: on the ordinary heap, ending exactly at an unmapped page and starting "
+            "exactly after one (any read outside the buffer faults); panics are caught per entry point, the allocation balance of the second run of "
+            "the library calls must be zero; documents nested 100 .. 2,000,000 levels ([, {\"a\":, and mixed; closed and unclosed) with every entry "
+            "point in its own child process (8 MiB stack, 20 s); non-trivial = every case")
+    trusted = ["guard pages detect reads and writes outside the input buffer only at page granularity on the side that abuts the unmapped page (hence both "
+               "placements); accesses inside the library's own heap blocks are checked by the allocator's consistency only",
+               "no sanitizer build is available offline; Miri cannot run the AVX2 paths"]
+    assumptions = []
+    DEEP_LIMIT_OK = 1000    # up to this nesting every entry point must return
+
+    def explore(self, ctx, res):
+        name = "c01"
+        cases_path = generate(ctx, name)
+        impl, model, crashed, err = run_stream(ctx, name, cases_path)
+        with open(cases_path) as f:
+            cases = f.read().splitlines()
+        if crashed or len(impl) != len(cases):
+            idx = min(len(impl), len(cases) - 1)
+            res.oracle_failures.append(dict(key="C01|process-abort", case=cases[idx],
+                                            detail=f"harness killed after {len(impl)} of {len(cases)} cases (fault / abort inside a safe entry point): {err[-300:]}"))
+        n = min(len(impl), len(cases))
+        for i in range(n):
+            case = cases[i]
+            res.evaluations += 1
+            res.nontrivial(case)
+            I = ctx["parse_fields"](impl[i])
+            if len(res.samples) < 6 and i % max(1, n // 6) == 0:
+                res.samples.append({"case": case[:200], "impl": impl[i][:300], "model": None})
+            if case.startswith("c01d "):
+                _, shape, depth, closed = case.split(" ")
+                depth = int(depth)
+                res.distribution[f"deep:{shape}"] += 1
+                for entry, outcome in I.items():
+                    if outcome in ("ok", "err"):
+                        continue
+                    if outcome.startswith("SIG") and depth > self.DEEP_LIMIT_OK:
+                        # unbounded native recursion: one finding per entry point
+                        res.oracle_failures.append(dict(key=f"C01|deep-nesting|{entry}|stack-overflow", case=case, detail=f"child process ended with {outcome}"))
+                    else:
+                        res.oracle_failures.append(dict(key=f"C01|deep-nesting|{entry}|{outcome}-at-depth-{depth}", case=case, detail=f"child process ended with {outcome}"))
+                continue
+            res.distribution["len:" + str(min(len(case.split(" ")[1]) // 2 // 64 * 64, 4096))] += 1
+            if impl[i].startswith("PANIC"):
+                res.oracle_failures.append(dict(key="C01|panic-outside-entry", case=case, detail=impl[i][:200]))
+                continue
+            if I.get("panics") != "-":
+                for ep in I.get("panics", "").split(","):
+                    res.oracle_failures.append(dict(key=f"C01|panic|{ep}", case=case, detail=f"entry point {ep} panicked"))
+            if I.get("leak") != "0":
+                res.oracle_failures.append(dict(key="C01|leak", case=case, detail=f"allocation balance of the library calls: {I.get('leak')} bytes"))
+
+
+REGISTRY = {"C01": C01(), "C17": C17(), "C19": C19(), "C04": C04(), "C11": C11(), "C13": C13(), "C06": C06(), "C15": C15(), "C16": C16(), "C05": C05(), "C18": C18(), "C08": C08(), "C07": C07(), "C03": C03(), "C02": C02(), "C20": C20(), "C09": C09(), "C10": C10(), "C14": C14(), "C12": C12()}
 for _k, _v in REGISTRY.items():
     _v.pid = _k
 
